@@ -74,6 +74,7 @@ pub fn run(prop: &str, leg: &str, ctx: &Ctx, rep: &mut Report) -> bool {
         ("C10", "ffsampling-trace") => c10::trace(ctx, rep),
         ("C17", "synthetic") => c17::synthetic(ctx, rep),
         ("C17", "captured") => c17::captured(ctx, rep),
+        ("C17", "u32-field") => c17::u32_field(ctx, rep),
         ("C09", "blocks") => c09::blocks(ctx, rep),
         ("C09", "totality") => c09::totality(ctx, rep),
         ("C09", "distribution") => c09::distribution(ctx, rep),
